@@ -490,14 +490,30 @@ def case_edit(mseed, ctx, kind, side, names, eseed):
     before = flat_obs(other)
     mine = flat_obs(edited, with_opt=False)
     outcome = apply_edits(edited, names, eseed)
-    nontrivial = bool(diff_obs(mine, flat_obs(edited, with_opt=False))) or any(
-        n in ("optimize", "optimize_sense", "slim_optimize", "fva", "pfba", "single_gene_deletion", "find_blocked",
-              "summary", "context_edit_and_exit", "repair") for n in names)
-    fails = _group(kind, diff_obs(before, flat_obs(other)), f"after {list(names)} on the {side} ({outcome}) the other model changed")
-    if ctx:
-        for k, t in _exit_check(kind, m, c, f"closing the original's context (after {list(names)} on the {side}) changed "
-                                "the copy").items():
-            fails.setdefault(k, t)
+    try:
+        nontrivial = bool(diff_obs(mine, flat_obs(edited, with_opt=False))) or any(
+            n in ("optimize", "optimize_sense", "slim_optimize", "fva", "pfba", "single_gene_deletion", "find_blocked",
+                  "summary", "context_edit_and_exit", "repair") for n in names)
+        edited_ok = True
+    except Exception:  # noqa
+        # the EDITED model can end up unobservable (e.g. removing the objective's reaction and then pfba leaves optlang with
+        # a pending addition that raises on every update - C02 / C13 territory, see NOTES_C12.md); only the OTHER model matters
+        nontrivial, edited_ok = True, False
+    try:
+        after = flat_obs(other)
+    except Exception as e:  # noqa
+        return {f"{kind}:other-unobservable": f"after {list(names)} on the {side} ({outcome}) observing the OTHER model raises "
+                                              f"{type(e).__name__}: {e}"}, True, outcome
+    fails = _group(kind, diff_obs(before, after), f"after {list(names)} on the {side} ({outcome}) the other model changed")
+    if ctx and (edited_ok or side == "original"):
+        try:
+            for k, t in _exit_check(kind, m, c, f"closing the original's context (after {list(names)} on the {side}) changed "
+                                    "the copy").items():
+                fails.setdefault(k, t)
+        except Exception as e:  # noqa
+            if side == "original":   # the copy was not edited, it has to stay observable
+                fails[f"{kind}:other-unobservable"] = f"after {list(names)} on the original and closing its context, observing " \
+                                                     f"the copy raises {type(e).__name__}: {e}"
     return fails, nontrivial, outcome
 
 
